@@ -31,6 +31,11 @@ CHECKS = {
    "DESIGN.md section 4 / C09",
    "'Within budget' is the window defined in DESIGN C09; the fragment-expiry bound is an upper bound computed from delivered slices; heap trend uses a 32 KB slack.",
    "runtime monitoring: accounting invariants at hooks + quiescent-point conservation + allocator trend"),
+ "C08": ("fault_enumeration",
+   "Exhaustive small scope (every ordered subset of <= 6/7 packet sequence numbers in three numberings fed to a fresh endpoint: recorded set invariant + emitted ack == fed set) plus sampled lossy sessions where, after every step, the set of messages the sender stopped retransmitting (hook, cross-checked by the public byte accounting) must be a subset of the messages completely delivered to the peer, and every Ack range a subset of the sequences delivered to its emitter.",
+   "DESIGN.md section 4 / C08",
+   "exhaustive only for the enumerated sub-space; the rest is seeded exploration. Trusted: crate decoder for reading sequence numbers and slices.",
+   "runtime monitoring: invariant at hook + release-implies-delivered history check; enumerated arrival orders"),
 }
 
 NOT_YET = {}
